@@ -43,7 +43,7 @@ DEFECTS = [
          suggested_fix="declare index_in_parent as size_t (internal header json_pointer_private.h)"),
 ]
 
-MANIFEST_PENDING = dict(
+MANIFEST = dict(
     text="Lean 4 theorems over a checked-C model of json_pointer.c (path as a C string in an allocation, every read/write bounds-checked, "
          "every size_t subtraction wrap-checked): the strstr/memmove loop equals left-to-right non-overlapping replacement (replaceAll_correct); "
          "for every tree and every NUL-free pointer, json_pointer_get/_get_internal/_getf do not fault and succeed exactly when RFC 6901 "
@@ -336,10 +336,10 @@ def exhaustive(maxlen, sets):
 
 def gen(rng, tier):
     quick = tier == "quick"
-    n = 1200 if quick else 40000
+    n = 10000 if quick else 60000
     for _ in range(n):
         yield {"lines": tree_case(rng, rng.choice([6, 10, 16]))}
-    for _ in range(3 if quick else 60):
+    for _ in range(8 if quick else 60):
         yield {"lines": long_key_case(rng)}
     yield from exhaustive(4 if quick else 6, True)
     # geti / getf over the exhaustive pointers of moderate length
